@@ -17,7 +17,9 @@ partial def loop (h : IO.FS.Stream) : IO Unit := do
   | [a, b, c, d, x] =>
     let w (s : String) : W := BitVec.ofNat 32 s.toNat!
     let cfg : Cfg := ⟨w a, w b, w c, w d, w x⟩
-    IO.println (" ".intercalate (entries.map fun e => s!"{e.name}={selName e cfg}"))
+    -- entry points whose resolver executes XGETBV although CPUID.1:ECX.OSXSAVE is clear (#UD on a real CPU)
+    let ud := (entries.filter fun e => (run cfg e.prog (4 * e.prog.length) c0).ud).map (·.name)
+    IO.println (" ".intercalate (entries.map fun e => s!"{e.name}={selName e cfg}") ++ " #ud=" ++ ",".intercalate ud)
   | _ => pure ()
   loop h
 
